@@ -10,7 +10,7 @@ theorem dirPath_congr {w w' : World} {d : Handle} (h : w'.obj d = w.obj d) : w'.
 
 theorem core_openExcl_ok {w : World} {d : Handle} {n p : Bytes} (hp : w.dirPath d = some p) (hl : w.lookup p n = none) (v : Nat) :
     core w (.openExcl d n) (.ok v) =
-      (((({ w with nextFid := w.nextFid + 1 } : World).setFile w.nextFid ⟨[], [], 0⟩).bind p n w.nextFid).newHandle (.file w.nextFid 0 true)).1 := by
+      (((({ w with nextFid := w.nextFid + 1 } : World).setFile w.nextFid ⟨[], []⟩).bind p n w.nextFid).newHandle (.file w.nextFid 0 true)).1 := by
   simp [core, applyOk, hp, hl]
 
 theorem openExcl_results (f : Option Fault) (w : World) (d : Handle) (n : Bytes) :
@@ -34,7 +34,7 @@ theorem openExcl_results (f : Option Fault) (w : World) (d : Handle) (n : Bytes)
 structure NewFile (w : World) (d fd : Handle) (name p : Bytes) (fid : Nat) : Prop where
   dirPath : w.dirPath d = some p
   bound : (w.dir p).isSome → w.lookup p name = some fid
-  file : w.file fid = some ⟨[], [], 0⟩
+  file : w.file fid = some ⟨[], []⟩
   fidLt : fid < w.nextFid
   obj : w.obj fd = .file fid 0 true
   fdLt : fd < w.handles.length
